@@ -352,7 +352,11 @@ func (e *vrdEnv) built(c vrdCfg) *RegProcessor {
 			zmq.AuthStop() // newRegProcessor leaves the authenticator running when the bind fails
 		}
 		// (the authenticator of the previous registrar lets go of its in-process endpoint a moment after AuthStop returned)
-		time.Sleep(time.Duration(5*(min(try, 49)+1)) * time.Millisecond)
+		pause := try
+		if pause > 49 {
+			pause = 49
+		}
+		time.Sleep(time.Duration(5*(pause+1)) * time.Millisecond)
 	}
 	if err != nil {
 		panic(fmt.Sprintf("registrar constructor (auth=%v): %v; tries: %v", c.Auth, err, append(errs[:3], fmt.Sprint("built so far ", VerifBuiltCount, " cache ", len(vrdBuiltCache)))))
